@@ -243,6 +243,8 @@ def c(ck: Check) -> None:
     for lp in loops:
         c = lp.iter
         a = c.args[0] if c.args else None
+        from .common import resolve_cached
+        a = resolve_cached(fm, a, fm.cfg.loop_header[lp]) if a is not None else None
         if not (isinstance(a, ast.Call) and callee_name(a) == "r_restrict" and text(a.func.value) == p and isinstance(a.args[0], ast.Dict)):
             probs.append("recursion is not on a cofactor of the argument")
             continue
